@@ -318,6 +318,18 @@ func (x *Explorer) call(st *State, site ssa.CallInstruction, cc *ssa.CallCommon,
 			st.alias(b.p, b.s)
 		}
 	}
+	// what is known about the emptiness of a caller's slice parameter holds for the callee's parameter it is passed as
+	d := st.depth()
+	for i, prm := range callee.Params {
+		if i < len(cc.Args) {
+			if t, ok := st.lenpos[vkey{d - 1, cc.Args[i]}]; ok && t != triUnk {
+				if st.lenpos == nil {
+					st.lenpos = map[vkey]tri{}
+				}
+				st.lenpos[vkey{d, prm}] = t
+			}
+		}
+	}
 	return true
 }
 
@@ -420,6 +432,18 @@ func (x *Explorer) stepReturn(st *State, ret *ssa.Return) bool {
 		st.facts[m.s] = m.f
 		st.memo[m.k] = m.s
 	}
+	if site != nil {
+		for i, prm := range callee.Params {
+			if i < len(site.Common().Args) {
+				if t, ok := st.lenpos[vkey{d, prm}]; ok && t != triUnk {
+					switch site.Common().Args[i].(type) {
+					case *ssa.Parameter, *ssa.FreeVar:
+						st.lenpos[vkey{d - 1, site.Common().Args[i]}] = t
+					}
+				}
+			}
+		}
+	}
 	for k := range st.lenpos {
 		if k.d >= d {
 			delete(st.lenpos, k)
@@ -454,7 +478,9 @@ func (x *Explorer) stepReturn(st *State, ret *ssa.Return) bool {
 		}
 	}
 	_ = hasErr
-	if x.C.Of(callee).Has(ECase) {
+	// the case-transform routine proper: it can change case and runs no object hook (a helper that wraps the hooks and
+	// the routine is not the routine: the inner call already produced the event)
+	if cl := x.C.Of(callee); cl.Has(ECase) && !cl.Has(EHookT) && !cl.Has(EHookV) {
 		st.add(ECanon)
 		x.L.Event(x, st, &Event{Kind: EvEffect, Eff: ECanon, Instr: site, Callee: callee})
 	}
